@@ -145,8 +145,16 @@ def gen_delta(rng, stream="claim"):
                 oldal.append([k, body if rng.random() < 0.5 else None])
     if stream == "outside" and rng.random() < 0.3:
         shell = "zsh"
+    forced = []
+    if rng.random() < 0.15:
+        # --force: names the table actions deleted from oldEnviron; they are then set, hence in the new environment
+        gone = GONE if (not fwd and product == "eups") else []
+        cand = [k for k, _ in old if any(k == k2 for k2, _ in new) and k not in gone]
+        if stream == "outside" and rng.random() < 0.5:
+            cand = [k for k, _ in old]
+        forced = rng.sample(cand, min(len(cand), rng.choice([1, 1, 2])))
     return {"kind": "delta", "stream": stream, "shell": shell, "product": product, "fwd": fwd,
-            "old": old, "new": new, "aliases": al, "oldaliases": oldal}
+            "old": old, "new": new, "aliases": al, "oldaliases": oldal, "forced": forced}
 
 
 def sweep_cases():
@@ -156,7 +164,8 @@ def sweep_cases():
         for v in (c, "a" + c + "b", c + "a", "a" + c, "/opt/my" + c + "dir/bin:/usr/bin"):
             out.append({"kind": "delta", "stream": "claim", "shell": "sh", "product": "foo", "fwd": True,
                         "old": [["PATH", "/usr/bin"], ["KEEP", "k " + c]],
-                        "new": [["PATH", v], ["KEEP", "k " + c], ["FOO_DIR", v]], "aliases": [], "oldaliases": []})
+                        "new": [["PATH", v], ["KEEP", "k " + c], ["FOO_DIR", v]], "aliases": [], "oldaliases": [],
+                        "forced": []})
     return out
 
 
@@ -212,6 +221,9 @@ def gen_text(rng):
         text += "export B=1;;\n"
     elif r < 0.16 and cmds:
         text = text.replace(";", "; ;", 1)
+    elif r < 0.20:
+        text += rng.choice(["export A=$B\n", "export A=\"x y\"\n", "export A=a\\ b\n", "export A\n", "unset\n", "echo hi\n",
+                            "export A=1 && false\n", "export A=x # c\n", "export 1A=x\n", "(unset A)\n"])
     return {"kind": "text", "stream": "fragment", "text": text, "old": old}
 
 
@@ -224,7 +236,8 @@ def enc_oldal(oldal):
 def to_line(c):
     if c["kind"] == "delta":
         return "\t".join(["emit", c["shell"], "1" if c["product"] == "eups" else "0", "1" if c["fwd"] else "0",
-                          enc_env(c["old"]), enc_env(c["new"]), enc_env(c["aliases"]), enc_oldal(c["oldaliases"])])
+                          enc_env(c["old"]), enc_env(c["new"]), enc_env(c["aliases"]), enc_oldal(c["oldaliases"]),
+                          common.enc_list(",", c.get("forced", []))])
     if c["kind"] == "failed":
         return "\t".join(["failed", enc_env(c["old"])])
     if c["kind"] == "text":
@@ -296,7 +309,7 @@ def impl_batch(cases, scratch):
         E.setup = fake_setup
         E.shell = c.get("shell", "sh")
         E.noaction = False
-        E.oldEnviron = dict((k, v) for k, v in c["old"])
+        E.oldEnviron = dict(baseline(c))
         E.aliases = dict((k, v) for k, v in c.get("aliases", []))
         E.oldAliases = dict((k, v) for k, v in c.get("oldaliases", []))
         try:
@@ -356,23 +369,32 @@ def valid_name(k):
     return bool(NAME_RE.match(k))
 
 
+def baseline(c):
+    """Eups.oldEnviron: the caller's environment minus the names --force made eups forget"""
+    forced = set(c.get("forced", []))
+    return [(k, v) for k, v in c["old"] if k not in forced]
+
+
 def changed_items(c):
-    old = dict(c["old"])
+    old = dict(baseline(c))
     return [(k, v) for k, v in c["new"] if not (k in old and old[k] == v)]
 
 
 def in_claim(c):
-    """names are identifiers, changed values are in the claim alphabet, and (unsetup of eups) no variable
-    among the three deleted ones is new; returns the four flags the model also computes"""
-    names = all(valid_name(k) for k, _ in c["old"]) and all(valid_name(k) for k, _ in c["new"])
+    """names are identifiers, changed values are in the claim alphabet, (unsetup of eups) no variable among the
+    three deleted ones is new, and (--force) forgotten names are in the computed environment; returns the five
+    flags the model also computes"""
+    names = all(valid_name(k) for k, _ in baseline(c)) and all(valid_name(k) for k, _ in c["new"])
     claim = all(set(v) <= CLAIM for _, v in changed_items(c))
     gone = True
     if not c["fwd"] and c["product"] == "eups":
-        oldk = {k for k, _ in c["old"]}
+        oldk = {k for k, _ in baseline(c)}
         newk = {k for k, _ in c["new"]}
         gone = all(k not in newk or k in oldk for k in GONE)
     nodup = len({k for k, _ in c["new"]}) == len(c["new"])
-    return "".join("1" if b else "0" for b in (claim, names, gone, nodup))
+    new1, _ = computed_env(c)
+    forced = all(k in new1 for k in c.get("forced", []))
+    return "".join("1" if b else "0" for b in (claim, names, gone, nodup, forced))
 
 
 def computed_env(c):
@@ -436,9 +458,10 @@ def shape_of(c):
     shapes = sorted({value_shape(v) for _, v in changed_items(c)}) or ["nochange"]
     old, new = dict(c["old"]), dict(c["new"])
     removed = [k for k in old if k not in new]
-    return "%s/%s/%s%s%s" % (c["stream"], "eups" if c["product"] == "eups" else "prod",
-                             "fwd" if c["fwd"] else "rev", "/removed" if removed else "",
-                             "/alias" if c["aliases"] or c["oldaliases"] else "")
+    return "%s/%s/%s%s%s%s" % (c["stream"], "eups" if c["product"] == "eups" else "prod",
+                               "fwd" if c["fwd"] else "rev", "/removed" if removed else "",
+                               "/alias" if c["aliases"] or c["oldaliases"] else "",
+                               "/force" if c.get("forced") else "")
 
 
 def compare(ctx, cases, scratch):
@@ -455,7 +478,7 @@ def compare(ctx, cases, scratch):
             jobs.append((c["text"], c["old"]))
             owners.append(n)
         elif c["kind"] == "failed" or (c["stream"] == "claim" and c["shell"] == "sh" and "text" in i
-                                       and in_claim(c) == "1111"):
+                                       and in_claim(c) == "11111"):
             jobs.append((i["text"], c["old"]))
             owners.append(n)
     sres = dict(zip(owners, shells_batch(scratch, jobs)))
@@ -491,9 +514,9 @@ def compare(ctx, cases, scratch):
             if flags != m["flags"]:
                 ctx.disagree(c, {"flags": m["flags"]}, {"flags": flags}, where="claim-predicate")
             _, exp = computed_env(c)
-            if m["protect"] != exp:
+            if flags[1] == "1" and m["protect"] != exp:
                 ctx.disagree(c, {"protect": m["protect"]}, {"computed_env": exp}, where="oracle-vs-coq-statement")
-            if flags == "1111" and c["shell"] == "sh" and not c["aliases"] and not c["oldaliases"]:
+            if flags == "11111" and c["shell"] == "sh" and not c["aliases"] and not c["oldaliases"]:
                 # what emit_sound says about the model
                 if m["run"].get("env") != exp:
                     ctx.disagree(c, m["run"], {"computed_env": exp}, where="model-shell-on-model-text")
@@ -529,17 +552,15 @@ def shrink(c, kind, scratch):
     if c["kind"] != "delta":
         return c
     cur = json.loads(json.dumps(c))
+    cur.setdefault("forced", [])
     for _ in range(3):
         progress = False
-        for field in ("aliases", "oldaliases", "old", "new"):
+        for field in ("aliases", "oldaliases", "forced", "old", "new"):
             i = 0
             while i < len(cur[field]):
                 t = json.loads(json.dumps(cur))
-                k = t[field][i][0]
                 del t[field][i]
-                if field == "old":
-                    pass
-                if in_claim(t) == "1111" and fails_same(t, kind, scratch):
+                if in_claim(t) == "11111" and fails_same(t, kind, scratch):
                     cur = t
                     progress = True
                 else:
@@ -549,12 +570,214 @@ def shrink(c, kind, scratch):
     return cur
 
 
-def run_e2e(ctx, scratch):
-    pass
+# ------------------------------------------------------------------ end to end: the real setup command
+
+TABLE_A = ('envPrepend(PATH, ${PRODUCT_DIR}/bin)\n'
+           'envAppend(MANPATH, ${PRODUCT_DIR}/man)\n'
+           'envSet(A_EXTRA, "x y")\n'
+           'addAlias(a_go, cd \\"${PRODUCT_DIR}\\")\n')
+TABLE_B = ('setupRequired(a)\n'
+           'envPrepend(LD_LIBRARY_PATH, ${PRODUCT_DIR}/lib)\n'
+           'envSet(B_HOME, ${PRODUCT_DIR})\n')
+TABLE_EUPS = ('envPrepend(PATH, ${PRODUCT_DIR}/bin)\n'
+              'envPrepend(PYTHONPATH, ${PRODUCT_DIR}/python)\n'
+              'envAppend(EUPS_PATH, ${PRODUCT_DIR}/extra)\n'
+              'addAlias(setup, eval `\\"${PRODUCT_DIR}/bin/eups_setup\\" \\"$@\\"`)\n')
+E2E_DIRS = ["my prods/a (v1);x", "p&q/<a>|b", "plain/a", "t\tab/a", "two  blanks/(a)", "semi;colon/a&b"]
+
+
+def e2e_scenarios(rng, n):
+    out = []
+    base = [
+        [["a"], ["-u", "a"]],
+        [["b"], ["-u", "b"]],
+        [["a"], ["b"], ["-u", "a"], ["-u", "b"]],
+        [["-r", "{dir:a}"], ["-u", "a"]],
+        [["a"], ["-F", "a"], ["-u", "-F", "a"]],
+        [["b"], ["-u", "-F", "b"]],
+        [["nosuchproduct"], ["a"], ["-u", "nosuchproduct"]],
+        [["-k", "b"], ["-j", "-u", "b"], ["-u", "a"]],
+        [["eups"], ["a"], ["-u", "eups"]],
+        [["a"], ["a", "2.0"], ["-u", "a"]],
+    ]
+    for i in range(n):
+        steps = base[i % len(base)]
+        d = E2E_DIRS[i % len(E2E_DIRS)] if i < len(E2E_DIRS) * 2 else rng.choice(E2E_DIRS)
+        extra = {}
+        if rng.random() < 0.5:
+            extra["MANPATH"] = rng.choice(["/usr/share/man", "", "/m 1:/m;2"])
+        if rng.random() < 0.5:
+            extra["A_EXTRA"] = rng.choice(["preexisting", "x y"])
+        if rng.random() < 0.4:
+            extra["EUPS_DIR"] = "/opt/eups (sys)"
+        out.append({"kind": "e2e", "stream": "e2e", "extra_env": extra, "steps": steps,
+                    "products": [{"name": "a", "version": "1.0", "dir": d, "table": TABLE_A},
+                                 {"name": "a", "version": "2.0", "dir": d + "-2", "table": "envPrepend(PATH, ${PRODUCT_DIR}/bin)\n"},
+                                 {"name": "b", "version": "1.1", "dir": d + "/../b dir", "table": TABLE_B},
+                                 {"name": "eups", "version": "9", "dir": "e ups", "table": TABLE_EUPS}]})
+    return out
+
+
+def e2e_declare(env0, prods):
+    """child: declare the products with the real Eups"""
+    os.environ.clear()
+    os.environ.update(env0)
+    devnull = os.open(os.devnull, os.O_WRONLY)
+    os.dup2(devnull, 2)
+    eups = common.import_eups()
+    E = eups.Eups()
+    for name, version, d in prods:
+        E.declare(name, version, productDir=d, tablefile=os.path.join(d, "ups", name + ".table"),
+                  tag=("current" if version != "2.0" else None))
+    return True
+
+
+def e2e_step(env0, args):
+    """child: one invocation of the real setup command, standard output captured; the new environment, the
+    baseline and the alias tables are snapshotted by wrappers around Eups.setup and eups.setup (the code under
+    test is not modified)"""
+    os.environ.clear()
+    os.environ.update(env0)
+    devnull = os.open(os.devnull, os.O_WRONLY)
+    os.dup2(devnull, 2)
+    eups = common.import_eups()
+    import eups.setupcmd as sc
+    snap = {}
+    orig_method = eups.Eups.setup
+    orig_fn = eups.setup
+
+    def spy_method(self, *a, **k):
+        r = orig_method(self, *a, **k)
+        snap["new"] = list(os.environ.items())      # the outermost call returns last and overwrites
+        return r
+
+    def spy_fn(productName, *a, **k):
+        cmds = orig_fn(productName, *a, **k)
+        E = a[3] if len(a) > 3 else k.get("eupsenv")
+        snap["product"] = productName
+        snap["fwd"] = k.get("fwd", True)
+        snap["failed"] = (cmds == ["false"])
+        snap["old"] = list(E.oldEnviron.items())
+        snap["aliases"] = list(E.aliases.items())
+        snap["oldaliases"] = list(E.oldAliases.items())
+        snap["shell"] = E.shell
+        return cmds
+
+    eups.Eups.setup = spy_method
+    eups.setup = spy_fn
+    buf = io.StringIO()
+    so = sys.stdout
+    sys.stdout = buf
+    status = None
+    try:
+        try:
+            status = sc.EupsSetup(args=list(args)).run()
+        except Exception as e:  # noqa   (bin/eups_setup prints the message and the word false)
+            status = "exc:" + type(e).__name__
+    finally:
+        sys.stdout = so
+    return {"status": status, "text": buf.getvalue(), "final": dict(os.environ), "snap": snap}
+
+
+LOCKPID = "EUPS_LOCK_PID"       # bookkeeping of lock.py for child processes, set before oldEnviron is copied
 
 
 def e2e_compare(ctx, cases, scratch):
-    pass
+    for n, c in enumerate(cases):
+        root = os.path.join(scratch, "e2e%d" % n)
+        stack = os.path.join(root, "stack")
+        os.makedirs(os.path.join(stack, "ups_db"))
+        os.makedirs(os.path.join(root, "ud", "ups_db"))
+        dirs, prods = {}, []
+        for p in c["products"]:
+            d = os.path.normpath(os.path.join(root, "prods", p["dir"]))
+            os.makedirs(os.path.join(d, "ups"), exist_ok=True)
+            os.makedirs(os.path.join(d, "extra", "ups_db"), exist_ok=True)
+            with open(os.path.join(d, "ups", p["name"] + ".table"), "w") as f:
+                f.write(p["table"])
+            dirs.setdefault(p["name"], d)
+            prods.append((p["name"], p["version"], d))
+        env = common.scrubbed_environ({"EUPS_PATH": stack, "EUPS_USERDATA": os.path.join(root, "ud"),
+                                       "EUPS_FLAVOR": "Linux64"})
+        env.update(c.get("extra_env", {}))
+        r = common.in_child(e2e_declare, env, prods)
+        if r[0] != "ok":
+            raise RuntimeError("cannot declare the end-to-end products: %r" % (r,))
+        for si, step in enumerate(c["steps"]):
+            args = [re.sub(r"\{dir:(\w+)\}", lambda m: dirs[m.group(1)], a) for a in step]
+            r = common.in_child(e2e_step, env, args)
+            if r[0] != "ok":
+                raise RuntimeError("end-to-end step failed: %r" % (r,))
+            res = r[1]
+            snap = res["snap"]
+            sub = {"kind": "e2e", "stream": "e2e", "extra_env": c.get("extra_env", {}), "products": c["products"],
+                   "steps": c["steps"][:si + 1]}
+            label = "e2e/" + ("unsetup" if "-u" in step else "setup") + ("/force" if "-F" in step else "") + \
+                    ("/local" if "-r" in step else "") + ("/eups" if "eups" in step else "")
+            shells = shells_batch(scratch, [(res["text"], sorted(env.items()))])[0]
+            if "product" not in snap or snap.get("failed"):
+                # nothing was set up: the text is the word false (or empty when the command bailed out early)
+                ctx.count(1, key=label + "/failed", nontrivial=json.dumps([c["products"][0]["dir"], c["steps"][:si + 1]]))
+                if res["text"] not in ("false\n", "", "\n"):
+                    ctx.disagree(sub, {"text": "false\n"}, {"text": res["text"]}, where="e2e-emit")
+                for sh, (got, err) in sorted(shells.items()):
+                    if got != env:
+                        ctx.fail("failed-changes-nothing", sub, expected=None, observed={"shell": sh, "stderr": err[:200]},
+                                 what="a failed %s changed the environment of %s" % (step, sh))
+                continue
+            # tie 1 on a real flow: the model emitter on the snapshotted baseline and new environment
+            caller = dict(env)
+            old = dict(snap["old"])
+            if LOCKPID in old and LOCKPID not in caller:
+                caller[LOCKPID] = old[LOCKPID]
+            forced = [k for k in caller if k not in old]
+            mc = {"kind": "delta", "stream": "e2e", "shell": snap["shell"], "product": snap["product"], "fwd": snap["fwd"],
+                  "old": [[k, v] for k, v in caller.items()], "new": [list(kv) for kv in snap["new"]],
+                  "aliases": [list(kv) for kv in snap["aliases"]], "oldaliases": [list(kv) for kv in snap["oldaliases"]],
+                  "forced": forced}
+            if dict(baseline(mc)) != old:
+                ctx.disagree(sub, {"baseline": dict(baseline(mc))}, {"oldEnviron": old},
+                             where="e2e: oldEnviron is not the caller's environment minus forgotten names")
+            m = model_result(mc, ctx.model([to_line(mc)])[0])
+            ctx.count(1, key=label, nontrivial=json.dumps([c["products"][0]["dir"], c.get("extra_env"), c["steps"][:si + 1]]))
+            if "err" in m or m["text"] != res["text"]:
+                ctx.disagree(sub, m, {"text": res["text"]}, where="e2e-emit")
+            # tie 3, the property itself: the shell starts from the caller's environment and must end with what
+            # eups computed (lock bookkeeping aside); names and changed values must be in the claim
+            final = {k: v for k, v in res["final"].items() if k != LOCKPID}
+            exp = dict(final)
+            if snap["product"] != "eups":
+                for k in PROTECTED:
+                    if k in env and k not in final:
+                        exp[k] = env[k]
+            inside = all(valid_name(k) for k in list(env) + list(final)) and \
+                all(set(v) <= CLAIM for k, v in final.items() if env.get(k) != v)
+            if not inside:
+                ctx.bump("e2e/outside-claim")
+                env = final
+                continue
+            bad = None
+            for sh, (got, err) in sorted(shells.items()):
+                if got is None:
+                    bad = ("shell-error", None, err[:300], "%s reports an error sourcing the text of %s" % (sh, step))
+                elif got != exp:
+                    k = sorted(k for k in set(got) | set(exp) if got.get(k) != exp.get(k))[0]
+                    kc = {"old": list(env.items()), "new": list(final.items()), "product": snap["product"]}
+                    bad = (classify(kc, k), {k: exp.get(k)}, {k: got.get(k), "shell": sh},
+                           "after sourcing the output of `%s %s` in %s variable %s is %r, eups computed %r" % (
+                               "setup", " ".join(step), sh, k, got.get(k), exp.get(k)))
+                if bad:
+                    break
+            if bad:
+                ctx.fail(bad[0], sub, expected=bad[1], observed=bad[2], what=bad[3])
+                break
+            ctx.traces_validated += 1
+            env = shells["dash"][0]
+        shutil.rmtree(root, ignore_errors=True)
+
+
+def run_e2e(ctx, scratch):
+    e2e_compare(ctx, e2e_scenarios(ctx.rng, ctx.size(12, 120)), scratch)
 
 
 def corpus_cases():
@@ -596,9 +819,14 @@ def setup_ctx(ctx):
 def run(ctx):
     setup_ctx(ctx)
     ctx.check_theorems()
+    if ctx.tier == "thorough":
+        ctx.coqchk(["Eupsv.Props.C05"])
     scratch = common.scratch_dir()
     try:
-        cases = corpus_cases() + sweep_cases()
+        corpus = corpus_cases()
+        e2e_compare(ctx, [c for c in corpus if c.get("kind") == "e2e"], scratch)      # corpus first
+        corpus = [c for c in corpus if c.get("kind") != "e2e"]
+        cases = corpus + sweep_cases()
         cases.append({"kind": "failed", "stream": "claim", "old": [["PATH", "/usr/bin"], ["A", "x y"]]})
         n = ctx.size(1500, 20000)
         for _ in range(n):
@@ -609,7 +837,7 @@ def run(ctx):
             cases.append(gen_text(ctx.rng))
         for _ in range(ctx.size(5, 50)):
             cases.append({"kind": "failed", "stream": "claim", "old": gen_delta(ctx.rng, "claim")["old"]})
-        for c in cases[len(corpus_cases()) + 45:][:3]:
+        for c in cases[len(corpus) + 45:][:3]:
             ctx.sample(c)
         for i in range(0, len(cases), 4000):
             compare(ctx, cases[i:i + 4000], scratch)
